@@ -102,6 +102,7 @@ func cmdCheck(args []string) int {
 	noEvidence := fs.Bool("no-evidence", false, "do not write evidence (used by selftest runs on copies)")
 	updateLedger := fs.Bool("update-ledger", false, "record discharged obligations in the baseline ledger")
 	verbose := fs.Bool("v", false, "verbose")
+	forceSafety := fs.Bool("safety", false, "generate run-time safety obligations even if the property's configuration has them off")
 	fs.Parse(args)
 	t0 := time.Now()
 	seed := envInt("VERIF_SEED", 0)
@@ -180,7 +181,7 @@ func cmdCheck(args []string) int {
 		names = append(names, name)
 	}
 	sort.Strings(names)
-	opts := VerifyOpts{Safety: pc.Safety, LockChecks: pc.Locks}
+	opts := VerifyOpts{Safety: pc.Safety || *forceSafety, LockChecks: pc.Locks}
 	for _, name := range names {
 		if *only != "" && !strings.Contains(name, *only) {
 			continue
